@@ -1686,6 +1686,12 @@ class CheckedCoverageInstrumentation(transformer.CheckedCoverageInstrumentationA
         instr_index: int,
         instr_original_index: int,
     ) -> None:
+        # BEFORE_WITH and BEFORE_ASYNC_WITH have no jump target since Python 3.11
+        # (the exception table leads to the clean-up code); -1 stands for "no target".
+        target_id = (
+            cfg.bytecode_cfg.get_block_index(instr.arg) if isinstance(instr.arg, BasicBlock) else -1
+        )
+
         # Instrumentation before the original instruction
         node.basic_block[before(instr_index)] = self.instructions_generator.generate_instructions(
             InstrumentationSetupAction.NO_ACTION,
@@ -1699,7 +1705,7 @@ class CheckedCoverageInstrumentation(transformer.CheckedCoverageInstrumentationA
                     InstrumentationConstantLoad(value=instr.opcode),
                     InstrumentationConstantLoad(value=instr.lineno),
                     InstrumentationConstantLoad(value=instr_original_index),
-                    InstrumentationConstantLoad(value=cfg.bytecode_cfg.get_block_index(instr.arg)),  # type: ignore[arg-type]
+                    InstrumentationConstantLoad(value=target_id),
                 ),
             ),
             instr.lineno,
